@@ -10,10 +10,9 @@
 #   * "accepted only when it will be framed next": at the moment of acceptance no earlier accepted word may still
 #     be waiting for the start of its first byte (nothing can get in between), i.e. the transmitter has no queue;
 #   * liveness (bound chosen by the harness, the statement fixes none): a queued byte's start bit appears at most
-#     SLACK = 2*divisor+4 cycles after the line became free / the byte was queued;
-#   * 'idle' (an observe_at point, documented "asserted when the transmitter is idle; pulsing valid will start a new
-#     transmission"): implies ready, never asserted while a byte is queued, (single-byte variant only) never while
-#     a frame is on the line, and asserted at the latest SLACK cycles after the line went quiet.
+#     SLACK = 4*divisor+8 cycles after the line became free / the byte was queued;
+#   * the 'idle' output is observed but nothing is demanded of it: the statement does not mention it (its relation to
+#     ready / framing is only counted as informational cover).
 from rtlmc.model import Design, Violation
 from rtlmc.explore import Spec
 
@@ -60,7 +59,7 @@ class UartSpec(Spec):
         super().__init__(cfg, tier)
         self.div = cfg["divisor"]
         self.bw = cfg.get("byte_width", 1)
-        self.slack = 2 * self.div + 4
+        self.slack = 4 * self.div + 8
         if cfg["kind"] == "single":
             vals = list(range(256)) if cfg["alphabet"] == "all" else FEW_BYTES
         else:
@@ -97,8 +96,8 @@ class UartSpec(Spec):
 
     def assumptions(self):
         return ["stream source is unconstrained: any valid/payload every cycle (superset of a well-behaved source)",
-                "liveness bounds are harness choices: start bit of a queued byte and 'idle' within 2*divisor+4 cycles of the line going free",
-                "'idle' is read as: nothing being framed and nothing queued; it implies ready"]
+                "liveness bound is a harness choice: start bit of a queued byte within 4*divisor+8 cycles of the line going free",
+                "nothing is demanded of the 'idle' output (not part of the statement)"]
 
     def apply(self, cur, env, a):
         valid, payload = a
@@ -122,10 +121,7 @@ class UartSpec(Spec):
             if o.tx != exp:
                 what = "start" if bit == 0 else ("stop" if bit == 9 else "data")
                 raise Violation("frame-bit:" + what, dict(byte=cb, bit_index=bit, cycle_in_frame=pos, expected=exp, got=o.tx))
-            if o.idle and self.bw == 1:
-                # (the multi-byte variant's 'idle' is documented as "a new word can be pulsed in" and is asserted
-                #  while the last byte is still on the line; the statement does not constrain it, so not demanded)
-                raise Violation("idle-while-framing", dict(byte=cb, cycle_in_frame=pos))
+            if o.idle: self.cover["info_idle_while_framing"] += 1
             pos += 1
             in_frame_after = pos < 10 * div
             quiet = 0
@@ -133,8 +129,7 @@ class UartSpec(Spec):
             # line free (tx == 1 here)
             in_frame_after = False
             if queue:
-                if o.idle and wait > 0:
-                    raise Violation("idle-while-queued", dict(queue=list(queue)))
+                if o.idle and wait > 0: self.cover["info_idle_while_queued"] += 1
                 wait += 1
                 if wait > self.slack:
                     raise Violation("byte-not-framed", dict(queue=list(queue), waited=wait))
@@ -144,11 +139,9 @@ class UartSpec(Spec):
                     quiet = 0
                     self.cover["idle"] += 1
                 else:
-                    quiet += 1
-                    if quiet > self.slack:
-                        raise Violation("idle-not-asserted", dict(cycles=quiet))
-        if o.idle and not o.ready:
-            raise Violation("idle-not-ready", None)
+                    quiet = 0
+                    self.cover["info_quiet_not_idle"] += 1
+        if o.idle and not o.ready: self.cover["info_idle_not_ready"] += 1
         # ---- acceptance (uses the queue as it is after this cycle's line activity)
         if valid and o.ready:
             if unstarted > 0:
@@ -169,7 +162,7 @@ class UartSpec(Spec):
         return (queue, unstarted, cb, pos, wait, quiet, je)
 
     def goals(self):
-        return ["frame", "frame_done", "back_to_back", "accept_idle", "accept_while_framing", "stall", "idle"]
+        return ["frame", "frame_done", "back_to_back", "accept_idle", "accept_while_framing", "stall"]
 
 
 def make(cfg, tier):
